@@ -4,6 +4,7 @@ Fault enumeration: one run = one request of one command with ONE outcome
 injected at ONE step of its device exchange (status word - any of 65 536 -,
 time-out, link error, unexpected opcode).  The step is addressed through a
 fault-free dry run of the same request under the same device policy."""
+import copy
 import itertools
 
 from sim import boot
@@ -354,6 +355,21 @@ def run_one(ch, cfg):
                                                          type(exc2).__name__, exc2)))
                 break
         w.link.fault_fn = None
+    # ---- link error over time: after a link failure the device stays away while the same request is
+    # sent again (its repair fails): still a result code of the documented set, still no reason to go
+    # down; when the device is back the request after that is served
+    if oc == OC_LINK and fired and not shutdown and not is_exit and not str(outcome).startswith("timeout") \
+            and ch.draw(3, "link-stays-down") == 1:
+        w.device.plugged = False
+        rep2, exc2 = w.request(copy.deepcopy(req))
+        code2 = rep2.get("errorcode") if isinstance(rep2, dict) else None
+        if exc2 is not None or type(code2) is not int or code2 not in RC.permitted(doc_cmd, v1) \
+                or code2 in (0, 1):
+            viol.append(("reply/link-stays-down:%s" % doc_cmd,
+                         "%s: link failure %s at step %s, device still away for the next %s -> reply %r "
+                         "(%s)" % (variant, _o(outcome), kind, variant, rep2,
+                                   "%s: %s" % (type(exc2).__name__, exc2) if exc2 else "no exception")))
+        w.device.plugged = True
     state = (variant, kind, _oname(outcome), sw)
     return _res(viol, w, state, fired, {"outcome." + _oname(outcome): 1},
                 {"variant": variant, "step": list(kind), "exchange_index": k,
